@@ -551,22 +551,25 @@ theorem lookupVal_typed : ∀ (fs : Fields) (vs : List Val) (i : Nat) (a : FAttr
     · exact lookupVal_typed fs vs i a t v ha.2 hv.2 h
 
 /-- the result of the reader's action at index `i`: the writer's value there, or — at a gap of
-    the writer's array — the nil value of the reader's field. -/
+    the writer's array — the nil value of the reader's field (an untagged field decodes the `null`;
+    a tagged one skips it and keeps its slot: the K5 repair). -/
 def rhoSame (fs : Fields) (vs : List Val) (gs : Fields) (i : Nat) : Option Val :=
   match lookupVal fs vs i with
   | some (_, t, v) => some (withDefaults t v)
-  | none => (findField gs i).map fun g => nilVal g.1 g.2
+  | none => (findField gs i).bind fun g => if g.1.tag.isSome then none else some (nilVal g.1 g.2)
+
+theorem swallows_eq_optional (b : FAttr) (u : FTy) : swallows b u = optionalField b u := by
+  unfold swallows optionalField nilOf
+  cases b.codec <;> cases u.isOption <;> rfl
 
 /-- the hypotheses under which a reader reads a writer whose shared fields it declares identically. -/
 structure SameHyp (enc : Encoding) (fs : Fields) (vs : List Val) (gs : Fields) : Prop where
   /-- shared fields are declared alike (type, tag, codec) -/
   shared : ∀ b u, (b, u) ∈ gs → b.skip = false → ∀ a t v, lookupVal fs vs b.idx = some (a, t, v) →
     t = u ∧ a.tag = b.tag ∧ a.codec = b.codec
-  /-- fields only the reader knows are optional — and, in array encoding below the end of the
-      writer's array, untagged (the K5 exclusion) -/
-  ronly : ∀ b u, (b, u) ∈ gs → b.skip = false → lookupVal fs vs b.idx = none →
-    optionalField b u = true ∧
-    (enc = .array → ∀ m, maxPresent (specFields fs vs) = some m → b.idx ≤ m → b.tag = none)
+  /-- fields only the reader knows are optional (before the K5 repair they also had to be untagged
+      in array encoding below the end of the writer's array) -/
+  ronly : ∀ b u, (b, u) ∈ gs → b.skip = false → lookupVal fs vs b.idx = none → optionalField b u = true
   /-- fields only the writer knows are items `skip()` gets across (C06.skip_exact) -/
   wonly : ∀ p ∈ encFields fs vs, p.idx ∉ liveIdxs gs → ∀ r, Dec.skip true (tagBytes p.tag ++ (p.body ++ r)) = .ok () r
 
@@ -606,8 +609,7 @@ theorem stepH_piece (enc : Encoding) (fs : Fields) (vs : List Val) (gs : Fields)
 
 theorem stepH_gap (enc : Encoding) (fs : Fields) (vs : List Val) (gs : Fields) (i : Nat)
     (haccR : acceptedFields gs = true) (hndR : (liveIdxs gs).Nodup) (H : SameHyp enc fs vs gs)
-    (hl : lookupVal fs vs i = none)
-    (hk5 : ∀ b u, (b, u) ∈ gs → b.skip = false → b.idx = i → b.tag = none) :
+    (hl : lookupVal fs vs i = none) :
     StepH gs (rhoSame fs vs gs i) i Enc.null := by
   intro r
   constructor
@@ -617,13 +619,17 @@ theorem stepH_gap (enc : Encoding) (fs : Fields) (vs : List Val) (gs : Fields) (
     rw [hbi] at hf
     have hro := H.ronly b u hbu hbs (by rw [hbi]; exact hl)
     have hok := fieldOk_of_mem gs b u haccR hbu hbs
-    have htag := hk5 b u hbu hbs hbi
-    have hd := dec_null_nil b u r hro.1 hok.2
-    simp only [rhoSame, hl, hf, Option.map_some]
-    unfold action
-    simp only [fdOf, htag, tagCheck]
-    rw [Dec.bind_run]
-    simp only [Dec.pure_run, catchVariant, hd]
+    cases htag : b.tag with
+    | none =>
+      have hd := dec_null_nil b u r hro hok.2
+      simp only [rhoSame, hl, hf, Option.bind_some, htag, Option.isSome_none, Bool.false_eq_true, if_false]
+      rw [action_of_not_bare _ _ (bareNull_untagged _ _ (by simp [fdOf, htag]))]
+      simp only [fdOf, htag, tagCheck]
+      rw [Dec.bind_run]
+      simp only [Dec.pure_run, catchVariant, hd]
+    | some n =>
+      simp only [rhoSame, hl, hf, Option.bind_some, htag, Option.isSome_some, if_true]
+      exact action_bare_null (fdOf b u) r (by simp [fdOf, htag]) (by simp only [fdOf, swallows_eq_optional]; exact hro)
 
 theorem sigmaF_array (fs : Fields) (vs : List Val) (ρ : Nat → Option Val) (m i : Nat)
     (hm : maxPresent (specFields fs vs) = some m) :
@@ -735,8 +741,7 @@ theorem fieldsDec_same (enc : Encoding) (fs : Fields) (vs : List Val) (gs : Fiel
         exact stepH_piece .array fs vs gs i a t v haccR hrt H hl
       | none =>
         simp only [Option.map_none]
-        exact stepH_gap .array fs vs gs i haccR hndR H hl
-          (fun b u hbu hbs hbi => (H.ronly b u hbu hbs (by rw [hbi]; exact hl)).2 rfl m hm (by omega)))
+        exact stepH_gap .array fs vs gs i haccR hndR H hl)
     (by
       intro _ p hp _
       obtain ⟨a, t, v, hl, he⟩ := lookupVal_of_mem fs vs p hnd hp
@@ -745,7 +750,7 @@ theorem fieldsDec_same (enc : Encoding) (fs : Fields) (vs : List Val) (gs : Fiel
     (by
       intro b u hbu hbs hσ hsi
       cases hl : lookupVal fs vs b.idx with
-      | none => exact (H.ronly b u hbu hbs hl).1
+      | none => exact H.ronly b u hbu hbs hl
       | some x =>
         obtain ⟨a, t, v⟩ := x
         obtain ⟨rfl, _, hcod⟩ := H.shared b u hbu hbs a t v hl
@@ -869,7 +874,7 @@ theorem fieldsDec_same (enc : Encoding) (fs : Fields) (vs : List Val) (gs : Fiel
             | some m =>
               rw [sigmaF_array fs vs _ m b.idx hm]
               by_cases hle : b.idx ≤ m
-              · simp [hle, rhoSame, hl, hf]
+              · cases htg : b.tag <;> simp [hle, rhoSame, hl, hf, htg, nilVal]
               · simp [hle, nilVal]
       · simp
   exact key gs (fun g hg => hg)
